@@ -679,6 +679,12 @@ func c05Mismatch(c *Ctx, m *fsmx.Machine, fn *ssa.Function) {
 					pass = append(pass, ssax.Edge{From: cd.If.Block(), Succ: 1})
 				}
 			}
+			// the same test written the other way round: `len(masterKeys) < 2` / `<= 1`, true edge
+			if strings.HasPrefix(xp, "len(") && (cd.Op == token.LSS || cd.Op == token.LEQ) {
+				if k, ok := ssax.ConstInt(cd.Y); ok && ((cd.Op == token.LSS && k == 2) || (cd.Op == token.LEQ && k == 1)) {
+					pass = append(pass, ssax.Edge{From: cd.If.Block(), Succ: 0})
+				}
+			}
 		}
 		bad := len(pass) == 0 || len(advanceSites) == 0
 		for _, s := range advanceSites {
@@ -817,9 +823,16 @@ func checkGate(c *Ctx, rule string, ms map[string]*fsmx.Machine, gs gateSpec) {
 			}
 		}
 	}
+	// the assumption "inEvent == this event": the equal edges of the other events and the not-equal edge of this one
+	// are never taken. Table-driven callbacks select their status constants by the event (phis); under the assumption
+	// they are constants again.
+	assume := append([]ssax.Edge{}, otherEvent...)
+	for _, e := range thisEvent {
+		assume = append(assume, ssax.Edge{From: e.From, Succ: 1 - e.Succ})
+	}
 	// status gate edges: Status == await on the participant obtained via QuorumGet(request.ParticipantId)
 	var gate []ssax.Edge
-	for _, sc := range ssax.StatusConds(fn) {
+	for _, sc := range ssax.StatusCondsUnder(fn, assume) {
 		if sc.K == await && strings.Contains(sc.Base, "QuorumGet(") && strings.Contains(sc.Base, ".ParticipantId") {
 			gate = append(gate, sc.EqEdge)
 		}
@@ -847,6 +860,12 @@ func checkGate(c *Ctx, rule string, ms map[string]*fsmx.Machine, gs gateSpec) {
 		}
 		n++
 		k := sprintf("%s:status-store#%d", key, n)
+		valuePinned := false
+		if ss.K == -1 {
+			if kk, ok := ssax.ConstIntUnder(fn, ss.Store.Val, assume); ok {
+				ss.K, valuePinned = kk, true
+			}
+		}
 		name, okK := allowed[ss.K]
 		base := ssax.Path(ss.Store.Addr)
 		onParticipant := strings.Contains(base, "QuorumGet(") && strings.Contains(base, ".ParticipantId")
@@ -855,7 +874,7 @@ func checkGate(c *Ctx, rule string, ms map[string]*fsmx.Machine, gs gateSpec) {
 		valid := len(validate) > 0 && !ssax.ReachableAvoiding(fn, ss.Store, validate, nil)
 		pinned := true
 		if len(m.CallbackEvents(fn)) > 1 {
-			pinned = len(thisEvent) > 0 && !ssax.ReachableAvoiding(fn, ss.Store, thisEvent, nil)
+			pinned = (len(thisEvent) > 0 && !ssax.ReachableAvoiding(fn, ss.Store, thisEvent, nil)) || valuePinned
 		}
 		det := []string{}
 		if !okK {
